@@ -233,11 +233,42 @@ def _call(fn, item):
         return ("err", traceback.format_exc())
 
 
+class WorkerCrash(dict):
+    """Result yielded for an item whose worker process died (segfault / abort inside a generated kernel): shaped like a violating result of
+    every check (status, failures[0].kind/text); numeric fields read as 0."""
+
+    def __init__(self, item, how):
+        key = stable_hash(repr(item))
+        super().__init__(status="violation", outcome="crash", key=f"worker-crash:{key}", crashed=True,
+                         failures=[dict(kind="process-crash", text=f"the worker process executing this item died ({how}): a generated kernel corrupted memory or "
+                                        f"aborted; item={repr(item)[:300]}")],
+                         results={}, detail=f"worker process died ({how})")
+
+    def __missing__(self, k):
+        return 0
+
+
+def _isolated(fn, it):
+    """Run one item in a pool of its own: (status, result) or ('crash', how)."""
+    from concurrent.futures.process import BrokenProcessPool
+
+    ctx = mp.get_context("fork")
+    try:
+        with ProcessPoolExecutor(max_workers=1, mp_context=ctx) as ex:
+            return ex.submit(_call, fn, it).result()
+    except BrokenProcessPool as e:
+        return ("crash", str(e)[:120] or "process pool broken")
+
+
 def pmap(fn, items, jobs: int | None = None, chunk: int = 1, recycle: int | None = None, desc: str = ""):
     """Run fn over items in a fork pool, yielding (item, result) in completion order.
 
-    A worker exception is a harness error unless the check catches it itself: it is re-raised here.
+    A worker exception is a harness error unless the check catches it itself: it is re-raised here.  A worker that DIES (a generated kernel
+    writing through a wild pointer takes the interpreter with it) breaks the pool: the unfinished items are then re-run one by one in
+    pools of their own and an item that kills its process again is yielded with a WorkerCrash result (a violation, not a harness error).
     """
+    from concurrent.futures.process import BrokenProcessPool
+
     items = list(items)
     jobs = min(jobs or NCPU, max(1, len(items)))
     if jobs <= 1 or os.environ.get("VERIF_SERIAL"):
@@ -248,24 +279,45 @@ def pmap(fn, items, jobs: int | None = None, chunk: int = 1, recycle: int | None
             yield it, r
         return
     ctx = mp.get_context("fork")
-    kw = {"max_tasks_per_child": recycle} if recycle else {}
-    if recycle:
-        ctx = mp.get_context("forkserver") if False else ctx
-    # max_tasks_per_child is incompatible with fork on 3.12; emulate by ignoring (workers are short-lived per check)
+    pending = list(range(len(items)))
+    done_idx = set()
+    broken = False
     with ProcessPoolExecutor(max_workers=jobs, mp_context=ctx) as ex:
-        futs = {ex.submit(_call, fn, it): it for it in items}
+        futs = {ex.submit(_call, fn, items[i]): i for i in pending}
         done = 0
-        for fu in as_completed(futs):
-            it = futs[fu]
-            st, r = fu.result()
-            done += 1
-            if st == "err":
-                for f2 in futs:
-                    f2.cancel()
-                raise RuntimeError(f"worker failed on {it!r}:\n{r}")
-            if desc and done % max(1, len(items) // 10) == 0:
-                print(f"  .. {desc}: {done}/{len(items)}", file=sys.stderr, flush=True)
-            yield it, r
+        try:
+            for fu in as_completed(futs):
+                i = futs[fu]
+                try:
+                    st, r = fu.result()
+                except BrokenProcessPool:
+                    broken = True
+                    break
+                done += 1
+                done_idx.add(i)
+                if st == "err":
+                    for f2 in futs:
+                        f2.cancel()
+                    raise RuntimeError(f"worker failed on {items[i]!r}:\n{r}")
+                if desc and done % max(1, len(items) // 10) == 0:
+                    print(f"  .. {desc}: {done}/{len(items)}", file=sys.stderr, flush=True)
+                yield items[i], r
+        except BrokenProcessPool:
+            broken = True
+    if broken:
+        rest = [i for i in pending if i not in done_idx]
+        print(f"  .. {desc}: a worker process died; re-running {len(rest)} unfinished items in isolated processes", file=sys.stderr, flush=True)
+        # isolated re-runs, several at a time (each in its own single-worker pool, driven by threads)
+        from concurrent.futures import ThreadPoolExecutor
+
+        with ThreadPoolExecutor(max_workers=max(1, jobs // 2)) as tex:
+            for i, (st, r) in zip(rest, tex.map(lambda k: _isolated(fn, items[k]), rest)):
+                if st == "err":
+                    raise RuntimeError(f"worker failed on {items[i]!r}:\n{r}")
+                if st == "crash":
+                    yield items[i], WorkerCrash(items[i], r)
+                else:
+                    yield items[i], r
 
 
 def stable_hash(obj) -> str:
